@@ -368,4 +368,24 @@ theorem natOps_sym (x y : Nat) : natOps .eq y x = natOps .eq x y := by
   show (y == x) = (x == y)
   exact BEq.comm
 
+
+/-! ### visit over arguments with their own alternative counts (`Model.visitN`) -/
+
+theorem validIdx_of_forall {α : Type} : ∀ (vs : List (Nat × V α)), (∀ p ∈ vs, p.2.idx < p.1) →
+    validIdx (vs.map (·.2.idx)) (vs.map (·.1)) = true
+  | [], _ => by simp [validIdx]
+  | p :: vs, h => by
+    simp only [List.map_cons]
+    exact validIdx_cons.mpr ⟨h p (List.mem_cons_self ..), validIdx_of_forall vs fun q hq => h q (List.mem_cons_of_mem _ hq)⟩
+
+theorem mapM_getAt_active {α : Type} : ∀ (vs : List (Nat × V α)),
+    (vs.zip (vs.map (·.2.idx))).mapM (fun (v, i) => (getAt v.2 i).map fun x => (i, x))
+      = (.ok (Spec.visitN (vs.map (·.2))) : Except Err (List (Nat × α)))
+  | [] => by simp [Spec.visitN]; rfl
+  | p :: vs => by
+    have ih := mapM_getAt_active vs
+    simp only [List.map_cons, List.zip_cons_cons, List.mapM_cons]
+    rw [ih]
+    simp [getAt, Spec.visitN, Except.map, bind, Except.bind, pure, Except.pure]
+
 end Tetl.C07
